@@ -303,12 +303,21 @@ func c06HasUpperOutsideNeg(s string) bool {
 // letter although its text has none; reported under its own finding key
 var c06FoldGroupLenient = false
 
+// true = what the implementation does for a pattern with a Perl / POSIX / Unicode class that contains letters of
+// both cases (\w, \pL, [[:alpha:]] ...): the class of the syntax tree has upper-case range bounds, so the pattern
+// counts as containing an upper-case letter although its text has none; reported under its own finding key
+var c06ClassEscapeLenient = false
+var c06ClassEscapeRe = regexp.MustCompile(`\\w|\\p\{?L|\[\[:(?:upper|alpha|alnum|word|graph|print|xdigit):\]\]`)
+
 func c06Match(v string, flavor int, target string) bool {
 	upper := c06HasUpper(v)
 	if c06NegClassLenient {
 		upper = c06HasUpperOutsideNeg(v)
 	}
 	if c06FoldGroupLenient && strings.Contains(v, "(?i") {
+		upper = true
+	}
+	if c06ClassEscapeLenient && c06ClassEscapeRe.MatchString(v) {
 		upper = true
 	}
 	sensitive := flavor == 0 || (flavor == 2 && upper)
@@ -416,6 +425,7 @@ type c06Gen struct {
 	evalOK bool // the query is also reference-evaluated on the corpus
 	rx     bool // regexp words derived from the case-pair documents
 	kinds  map[string]string // class labels of the generated words
+	allCase bool             // every group of this query (at every depth) carries a case: directive
 }
 
 var c06Plain = []string{"foo", "Foo", "hello", "Hello", "bar", "a.b", "x+y", "fo+", "[a-c]b", "main", "world", "o", "FOO", "hel+o", "q", "é"}
@@ -589,7 +599,7 @@ func (g *c06Gen) opWord() (dWord, string) {
 		kind, v = "end", w+"$"
 	case 12:
 		kind = "escape"
-		v = r.Pick([]string{w[:i] + `\w` + w[i+1:], `\b` + w, w + `\b`, w[:i] + fmt.Sprintf(`\x%02x`, w[i]) + w[i+1:], w[:i] + `\` + r.Pick([]string{".", "+", "{", "|"}) + w[i:], w[:i] + `\pL` + w[i+1:]})
+		v = r.Pick([]string{w[:i] + `\w` + w[i+1:], `\b` + w, w + `\b`, w[:i] + c06HexEscape(w[i]) + w[i+1:], w[:i] + `\` + r.Pick([]string{".", "+", "{", "|"}) + w[i:], w[:i] + `\pL` + w[i+1:]})
 	case 13, 14:
 		// no operator at all: braces / commas that do not form a counted repetition are ordinary characters
 		kind = "literal-punct"
@@ -599,6 +609,15 @@ func (g *c06Gen) opWord() (dWord, string) {
 	}
 	quoted := strings.ContainsAny(v, " ()\"\\") || r.Chance(20)
 	return dWord{quoted, v}, "single-operator-atom:" + kind
+}
+
+// \xNN for a lower-case letter (an escape that denotes an upper-case letter makes the pattern "contain an upper-case
+// letter" for the implementation but not for a textual reading - not a question this check asks)
+func c06HexEscape(c byte) string {
+	if c >= 'A' && c <= 'Z' {
+		return string(rune(c))
+	}
+	return fmt.Sprintf(`\x%02x`, c)
 }
 
 // classes and flag groups that regexp/syntax simplifies to FOLD-CASE literals: [fF], [fF]oo, [hH][eE]llo,
@@ -660,7 +679,13 @@ func (g *c06Gen) foldWord() (dWord, string) {
 	return dWord{quoted, v}, "fold-literal-atom:" + kind
 }
 
+// words whose other spellings (lower / capitalised / upper) occur in other documents
+var c06CaseWords = []string{"hello", "Hello", "HELLO", "foo", "Foo", "FOO", "user", "USER", "getuser", "xaby", "XABY", "case", "Case", "bar", "Bar"}
+
 func (g *c06Gen) word() dWord {
+	if g.allCase && g.r.Chance(60) { // the selection depends on the case flavour in force
+		return dWord{g.r.Chance(20), g.r.Pick(c06CaseWords)}
+	}
 	if g.r.Chance(14) {
 		w, k := g.opWord()
 		g.kinds[w.v] = k
@@ -682,6 +707,15 @@ func (g *c06Gen) word() dWord {
 
 func (g *c06Gen) atom() *dExpr {
 	r := g.r
+	if g.allCase && r.Chance(60) { // mostly patterns: the atoms that a case: directive governs
+		switch r.Intn(4) {
+		case 0:
+			return &dExpr{kind: "field", field: "content", alias: r.Bool(), w: g.word()}
+		case 1:
+			return &dExpr{kind: "field", field: "file", alias: r.Bool(), w: g.word()}
+		}
+		return &dExpr{kind: "text", w: g.word()}
+	}
 	switch r.Intn(13) {
 	case 0, 1, 2, 3:
 		return &dExpr{kind: "text", w: g.word()}
@@ -736,7 +770,11 @@ func (g *c06Gen) query(depth int) [][]*dExpr {
 	}
 	for i := 0; i < nc; i++ {
 		var c []*dExpr
-		for j, ne := 0, 1+r.Intn(3); j < ne; j++ {
+		ne := 1 + r.Intn(3)
+		if g.allCase { // small conjunctions: a wrong flavour is not hidden by the other members
+			ne = 1 + r.Intn(2)
+		}
+		for j := 0; j < ne; j++ {
 			c = append(c, g.expr(depth))
 		}
 		q = append(q, c)
@@ -748,7 +786,7 @@ func (g *c06Gen) query(depth int) [][]*dExpr {
 		c = append(c, e)
 		q[ci] = append(c, q[ci][p:]...)
 	}
-	if r.Chance(30) {
+	if g.allCase || r.Chance(30) {
 		ins(&dExpr{kind: "case", flavor: r.Intn(3)})
 	}
 	if r.Chance(15) {
@@ -1039,6 +1077,9 @@ func c06Shape(q [][]*dExpr) (depth, n int, feats map[string]bool) {
 					feats["case"] = true
 					if d > 0 {
 						feats["inner-case"] = true
+						if e.flavor == 2 {
+							feats["inner-case-auto"] = true
+						}
 					}
 				case "type":
 					feats["type"] = true
@@ -1102,6 +1143,9 @@ func TestVerifC06(t *testing.T) {
 	seen := map[string]bool{}
 	for i := 0; i < n; i++ {
 		g := &c06Gen{r: r, evalOK: true, rx: i%3 != 2, kinds: map[string]string{}}
+		// 1 query in 7: explicit case: directives in EVERY group, so that each flavour (also an explicit
+		// case:auto) occurs inside each other flavour's scope
+		g.allCase = r.Chance(15)
 		depth := 1 + r.Intn(3)
 		dq := g.query(depth)
 		s := c06RenderQuery(dq, " ")
@@ -1130,6 +1174,7 @@ func TestVerifC06(t *testing.T) {
 					c06RegexLenient = lenient&1 != 0
 					c06NegClassLenient = lenient&2 != 0
 					c06FoldGroupLenient = lenient&4 != 0
+					c06ClassEscapeLenient = lenient&8 != 0
 					want := map[string]bool{}
 					for di := range c06Docs {
 						dd := &c06Docs[di]
@@ -1163,9 +1208,10 @@ func TestVerifC06(t *testing.T) {
 						{"regex-field-matches-file-names", "regex: is documented to match content but also selects documents by file name"},
 						{"auto-case-upper-only-in-negated-class", "case:auto: a pattern whose only upper-case letters are inside a negated class [^A-Z] is searched case-insensitively"},
 						{"auto-case-fold-flag-group-without-upper", "case:auto: a pattern with a case-insensitive flag group, (?i:f)oo, and no upper-case letter in its text is searched case-sensitively outside the group"},
+						{"auto-case-class-escape-without-upper", "case:auto: a pattern with a class escape that contains letters of both cases (\\w, \\pL) and no upper-case letter in its text is searched case-sensitively"},
 					}
 					explained := -1
-					for _, m := range []int{1, 2, 4, 3, 5, 6, 7} {
+					for _, m := range []int{1, 2, 4, 8, 3, 5, 6, 9, 10, 12, 7, 11, 13, 14, 15} {
 						if len(refDiff(m)) == 0 {
 							explained = m
 							break
